@@ -57,6 +57,11 @@ func main() {
 		r := engine.NewRun(id, *tier, c.Level, budget)
 		ex := c.Run(r)
 		os.Exit(r.Finish(ex, c.Replay))
+	case "c07hist":
+		if len(os.Args) < 4 {
+			usage()
+		}
+		props.C07HistChild(os.Args[2], os.Args[3])
 	case "replay":
 		if len(os.Args) < 4 {
 			usage()
